@@ -168,6 +168,21 @@ def check2d(case):
         return dict(nontrivial=nt, labels=labels)
     qsc, _a = sim.state_scales(P.md, P.prim)
     mk = lambda: cases.build_integrator(case["integ"], P.mesh, P.disc)
+    # step by step first: a run that leaves the admissible set (negative pressure -> NaN) is outside the domain, in whichever of the two runs round-off
+    # makes it happen first; if only one of them leaves it while the other keeps a comfortable margin, that is an asymmetry
+    sA, sB = mk(), mk()
+    gA, gB = fA.copy(), fB.copy()
+    for s_ in range(case["nsteps"]):
+        sim.advance(sA, P.disc, gA, case["cfl"])
+        sim.advance(sB, P.disc, gB, case["cfl"])
+        okA, okB = sim.admissible(P.md, gA.data), sim.admissible(P.md, gB.data)
+        if not (okA and okB):
+            good = gA if okA else (gB if okB else None)
+            if good is not None:
+                pg = cases.prim_from_cons(P.md, good.data)
+                require(float(np.min(pg[2])) <= 1e-3 * float(np.max(pg[2])) or float(np.min(pg[0])) <= 1e-3 * float(np.max(pg[0])), "admissibility-shift-2d",
+                        "after %d steps only one of the two runs (shifted / unshifted) has left the admissible set while the other is far from its boundary" % (s_ + 1))
+            raise Skip("left_admissible_set")
     rA_ = mk().solve(fA, case["cfl"], stop={"maxit": case["nsteps"]})[-1]
     rB_ = mk().solve(fB, case["cfl"], stop={"maxit": case["nsteps"]})[-1]
     if not all(np.all(np.isfinite(d)) for d in rA_.data):
